@@ -8,7 +8,7 @@
    every step t of its trace, on the model of the REPAIRED code (FIXLOG.md:
    7baf630 c9f204c d6f86b5 e01fd08 ec7166b 8b460ec c6ea1f8 handlers/dhcp4_spoofer, 94e2701 AppendOptions). *)
 From PV Require Import Base.Prelude Base.Text Model.DHCP Model.DHCPShow Spec.DHCP Spec.DHCPCheck
-  Proofs.DHCP Proofs.DHCPInv Proofs.DHCPReply Proofs.DHCPTie Proofs.DHCPClauses Proofs.DHCPRefuted.
+  Proofs.DHCP Proofs.DHCPInv Proofs.DHCPReply Proofs.DHCPTie Proofs.DHCPClauses Proofs.DHCPRestart Proofs.DHCPRestored Proofs.DHCPRefuted.
 Open Scope list_scope.
 Open Scope N_scope.
 
@@ -200,3 +200,13 @@ Theorem C12_header_ciaddr : forall t m,
   h_ciaddr (reply_header t m) = match t with RNak => 0 | _ => m_ciaddr m end.
 Proof. exact header_ciaddr. Qed.
 Print Assumptions C12_header_ciaddr.
+
+(* The configuration value domain: what New makes of the raw configuration.  The DNS server handed to
+   non-captured clients is the configured IPv4 server (plain or IPv4-mapped form) and the ROUTER when none is
+   configured (zero value, IPv6); the mode is normalised; the subnets in force are the configuration's.
+   With C12_clause_dns_by_capture: option 6 of every OFFER/ACK to a non-captured client = spec_dns raw. *)
+Theorem C12_dns_defaults_to_router : forall r c, new_cfg r = Some c ->
+  c_dns c = spec_dns r /\ want_dns c false = spec_dns r /\ c_routerip c = r_routerip r /\
+  c_mode c = norm_mode (r_mode r) /\ sub_ok c.
+Proof. exact dns_defaults_to_router. Qed.
+Print Assumptions C12_dns_defaults_to_router.
